@@ -599,7 +599,16 @@ class CIMachine(FormatMachine):
                 raise Violation("C11", "C11.find_by_uid_from_top", "lookup-by-uid-raises/%s" % exc_class(e),
                                 {"uid": uid, "depth": uid.count("-")})
             if got is not v:
-                raise Violation("C11", "C11.find_by_uid_from_top", "lookup-by-uid-wrong-object", {"uid": uid})
+                # known finding: with one id repeated down a chain (A > A-A > A-A-A) the relative tail "A-A" handed to the
+                # nested lookup equals a sibling's full UID and the UID scan returns that sibling
+                chain_ids = []
+                cur = v
+                while cur is not None:
+                    chain_ids.append(cur.id)
+                    cur = cur.parent
+                repeated = len(chain_ids) >= 3 and len(set(chain_ids)) < len(chain_ids)
+                self.soft(Violation("C11", "C11.find_by_uid_from_top",
+                                    "lookup-by-uid-wrong-object" + ("/id-repeated-down-a-chain" if repeated else ""), {"uid": uid}))
             if "-" in uid and parent == "top":
                 CTX.probe("c11.dashed_toplevel_lookup")
         self.count("C11", ["forest", sorted((u.count("-"), len(v.variants)) for u, v in seen.items())])
@@ -675,6 +684,12 @@ class CIMachine(FormatMachine):
         if arch and arch != "src" and rec and any(arch not in model["vars"][c]["arches"] for c in population):
             CTX.probe("c11.getv_recursive_arch_filtered_something")
         return "getv:%d" % len(res)
+
+    def prop_for_diff(self, diff):
+        # C11 (e): "the same forests after a write/read cycle" - in a C11 run a forest difference is reported there
+        if diff.startswith("/forest") and self.cfg.get("focus") == "C11":
+            return "C11"
+        return "C01"
 
     # ---- restart support ---------------------------------------------------------------------
     def op_dump(self, op):
@@ -867,9 +882,15 @@ class CIMachine(FormatMachine):
             except Exception:
                 s.model["vars"].pop(vid, None)
         self._loose = {}
+        # handles are re-bound by WALKING the reloaded forest (not through the lookup API, which is itself under test)
+        found = {}
+
+        def walk(container, depth):
+            for v in container.variants.values():
+                found.setdefault(v.uid, v)
+                if depth < 8:
+                    walk(v, depth + 1)
+        walk(s.obj.variants, 0)
         for uid, vid in aux.items():
-            try:
-                s.pool[vid] = s.obj[uid]
-            except Exception as e:
-                raise Violation("C11", "C11.find_by_uid_from_top", "lookup-by-uid-raises/%s" % exc_class(e),
-                                {"uid": uid, "after": "restart"})
+            if uid in found:
+                s.pool[vid] = found[uid]
